@@ -41,6 +41,11 @@ def gen_prefix(rng, tag):
             stmt += f" {v} = ({g.int_expr(sc, 1)}) % 1000"
         if r.chance(0.3):
             stmt += " " + g.print_stmt(sc)
+        if r.chance(0.35):
+            # any other completed toplevel statement: loops left by break / continue, ifs, matches, calls
+            g.budget = 4
+            g.loop_depth = 0
+            stmt += " " + g.stmt(sc)
         reqs.append(stmt)
     calls = []
     for (fname, n) in g.funs:
@@ -52,7 +57,18 @@ def gen_stop(rng, tag, idx):
     """A request that stops inside nested calls / loops / blocks without
     touching toplevel variables.  Returns (definitions or None, request, fault or None, kind)."""
     r = rng
-    kind = r.weighted([(5, "error"), (4, "interrupt")])
+    kind = r.weighted([(5, "error"), (4, "interrupt"), (2, "test_error"), (1, "test_interrupt")])
+    if kind == "test_error":
+        # the stop is inside a test body (or something it calls): the session is left in the test's frame
+        key, imports, expr = r.choice(sites.all_sites())
+        placement = r.choice(sites.PLACEMENTS)
+        pdefs, top = sites.place(expr, placement, tag="w")
+        defs = "\n".join(x for x in [imports, sites.LANG_DEFS, pdefs] if x)
+        return defs, f"test stopt{tag}{idx} {{ {top} }}", None, f"error:{key}@{placement}/test"
+    if kind == "test_interrupt":
+        ptag = f"{tag}t{idx}"
+        defs, main = gen_prog(r.fork("stopprog"), size=r.randint(4, 10), tag=ptag)
+        return defs, f"test stopt{tag}{idx} {{ {' '.join(main)} }}", {"at": r.randint(1, 120), "kind": "interrupt"}, "interrupt/test"
     if kind == "error":
         site_list = sites.all_sites()
         key, imports, expr = r.choice(site_list)
@@ -86,15 +102,16 @@ class C10(SessimProp):
     counts = {"quick": 2500, "thorough": 150000}
     wall_caps = {"quick": 150, "thorough": 1500}
     rule = ("case = prefix P of completed toplevel work (definitions, lets, assignments), then 1..3 nested stops (a runtime "
-            "error at one of the C07 sites placed in a function or a toplevel block, or an interrupt at step k of a "
-            "generated program), optionally expressions evaluated in the stopped context (some of which stop again), an "
+            "error at one of the C07 sites placed in a function, a toplevel block or a test body, or an interrupt at step k of a "
+            "generated program run as a function, a block or a test body), optionally expressions evaluated in the stopped context (some of which stop again), an "
             "optional idle interrupt, :abort once or twice, then probes (every toplevel variable of P, every local name of "
             "the aborted frames, calls of P's functions, a fresh let and read-back, :resume :skip :fstmts :fvalues :locals "
             ":stack). The probe responses must equal those of a fresh simulated session given P and the same probes. "
             "evaluations = simulated sessions (test + reference). distinct_nontrivial = distinct (stop kinds, context "
             "expressions, abort count) among cases in which at least one stop really left the session inside a frame or block")
     expected_probes = ["stopped_by_error", "stopped_by_interrupt", "stopped_in_function_frame", "stopped_in_toplevel_block",
-                       "ctx_expr_stopped_again", "double_abort", "three_stops", "idle_interrupt_before_abort", "enumerated_k"]
+                       "ctx_expr_stopped_again", "double_abort", "three_stops", "idle_interrupt_before_abort", "enumerated_k",
+                       "stopped_in_test_body"]
 
     def gen_case(self, rng, tier, index):
         r = rng
@@ -202,7 +219,9 @@ class C10(SessimProp):
                 # fresh session holds is not "something left over": require only
                 # that nothing EXTRA is there.
                 la, lb = a["outcome"][1].splitlines(), b["outcome"][1].splitlines()
-                if la == lb[:len(la)]:
+                # (:fvalues lists the newest value first; :abort keeps only the oldest one, later probes add theirs)
+                it = iter(lb)
+                if all(any(x == y for y in it) for x in la):  # la is a subsequence of lb: nothing extra
                     a = b
             if a != b:
                 which = [k for k in a if a[k] != b[k]]
@@ -253,6 +272,8 @@ class C10(SessimProp):
                         really_stopped = True
                         for f in rd["fired"]:
                             bump(f"site:{f['expr']}/{f['state']}/d{min(f['depth'], 4)}")
+                    if s["kind"].endswith("/test") and oc[0] in ("err", "interrupted"):
+                        bump("probe:stopped_in_test_body")
                     if isinstance(fr, str) and fr.startswith(("fun ", "method ", "closure", "test ")):
                         bump("probe:stopped_in_function_frame")
                     elif oc[0] in ("err", "interrupted") and fr is not None:
